@@ -23,8 +23,10 @@ def dup(obj, method):
     return pickle.loads(pickle.dumps(obj, protocol=int(method[1:])))
 
 
-def duplicates(env, lp, npol, method, pre, cont, N=2, A=2, d=1, labels='int', twin=False):
-    orig, hp, data, ctxd = trained(env, lp, npol, N, A, d, labels, fixed_dec=bool(npol))
+def duplicates(env, lp, npol, method, pre, cont, N=2, A=2, d=1, labels='int', twin=False, binarizer=False, direct=False):
+    BIN = env.ufunc('bin', 2) if binarizer else None
+    BIN2 = env.ufunc('bin2', 2) if binarizer else None
+    orig, hp, data, ctxd = trained(env, lp, npol, N, A, d, labels, fixed_dec=bool(npol), binarizer=BIN)
     ref, _, _, _ = trained(env, lp, npol, N, A, d, labels, hp=hp, seed=hp['seed'], data=data)
     idle, _, _, _ = trained(env, lp, npol, N, A, d, labels, hp=hp, seed=hp['seed'], data=data)
     cur = list(LABELS[labels][:A])
@@ -37,6 +39,11 @@ def duplicates(env, lp, npol, method, pre, cont, N=2, A=2, d=1, labels='int', tw
             for b in group:
                 b.add_arm(a)
             cur.append(a)
+        elif op == 'B':
+            a = spare.pop(0)
+            for b in group:
+                b.add_arm(a, BIN2)
+            cur.append(a)
         elif op == 'W' and not npol and len(cur) >= 2:
             for b in group:
                 b.warm_start({a: FEATURES[a] for a in cur}, 1.0)
@@ -47,6 +54,13 @@ def duplicates(env, lp, npol, method, pre, cont, N=2, A=2, d=1, labels='int', tw
     cp = dup(orig, method)
     env.ob('arms.equal', list(cp.arms) == list(orig.arms) and cp.arms is not orig.arms)
     compare_on_copies(env, 'fresh_copy', cp, ref, ctxd)
+    if direct:
+        # the duplicate and the reference answer themselves (not harness-level clones of them): state that lives outside the
+        # object graph (caches keyed by object identity, module-level registries) is part of "the original"
+        from .common import outputs_equal
+        qd = env.reals('qd', (1, ctxd)) if ctxd else None
+        for what in ('expectations', 'predict'):
+            outputs_equal(env, 'direct.' + what[:4], ask(cp, what, qd), ask(ref, what, qd))
     for k, op in enumerate(cont):
         tag = '%s%d' % (op, k)
         pair = (cp, ref)
@@ -126,6 +140,14 @@ def scenarios(tier):
                                         weight=(60 if npol else 6) * (len(cont) + len(pre) + 1), max_paths=60000,
                                         shards=4 if big else (2 if npol else 1),
                                         bounds=dict(lp=lp, np=npol, method=mth, before='F' + pre, after=cont)))
+    # Thompson Sampling with a binarizer that add_arm replaces after a query (per-leaf / per-cluster policies capture it)
+    for npol in (['tree', None] if q else ['tree', None, 'radius:cityblock', 'clusters:2', 'lsh:1:1']):
+        for mth in (['deepcopy', 'p4'] if q else METHODS_T):
+            out.append(Scenario('thompson_bin.%s.%s.preQB.direct' % (npol or 'none', mth), duplicates,
+                                dict(lp='thompson', npol=npol, method=mth, pre='QB', cont='', binarizer=True, direct=True),
+                                weight=400 if npol else 30, max_paths=60000, shards=4 if npol else 1,
+                                bounds=dict(lp='thompson + uninterpreted binarizer', np=npol, method=mth,
+                                            before='F, query, add_arm(new binarizer)', after='queries on the copy itself')))
     out.append(Scenario('twin.ucb1', duplicates, dict(lp='ucb1', npol=None, method='p4', pre='A', cont='P', twin=True),
                         twin=True))
     return out
